@@ -350,7 +350,7 @@ func sampleScalar(t reflect.Type, k int) reflect.Value {
 	case t == durType:
 		v.SetInt(int64(time.Duration(3600+k) * time.Second))
 	case t == bigType:
-		v.Set(reflect.ValueOf(*big.NewInt(int64(1000 + k))))
+		v.Set(reflect.ValueOf(*sampleBig(k)))
 	case t.Kind() == reflect.String:
 		v.SetString(fmt.Sprintf("s%d", k))
 	case t.Kind() == reflect.Bool:
@@ -366,6 +366,27 @@ func sampleScalar(t reflect.Type, k int) reflect.Value {
 		v.SetBytes([]byte{byte(1 + k), 2, 3})
 	}
 	return v
+}
+
+// sampleBig: big integers around the widths at which the sign byte / padding rules change
+func sampleBig(k int) *big.Int {
+	one := big.NewInt(1)
+	pow := func(n uint) *big.Int { return new(big.Int).Lsh(one, n) }
+	switch k % 8 {
+	case 1:
+		return new(big.Int).Neg(new(big.Int).Sub(pow(64), big.NewInt(59))) // -(2^64-59): 64-bit magnitude, needs a sign byte
+	case 2:
+		return new(big.Int).Sub(pow(64), one) // 2^64-1
+	case 3:
+		return new(big.Int).Neg(new(big.Int).Add(pow(63), one)) // -(2^63+1)
+	case 4:
+		return big.NewInt(-1)
+	case 5:
+		return new(big.Int).Neg(new(big.Int).Sub(pow(128), big.NewInt(3))) // 128-bit magnitude
+	case 6:
+		return pow(63) // 2^63: top bit set, positive
+	}
+	return big.NewInt(int64(1000 + k))
 }
 
 var objType = reflect.TypeFor[kmip.Object]()
@@ -663,6 +684,19 @@ func TestStructCases(t *testing.T) {
 			if pan != "" || !bytes.Equal(doc, doc2) {
 				probs = append(probs, fmt.Sprintf("%s:reencoding-differs:%s", e.name, pan))
 			}
+			// the values survive the hop: the decoded structure and the original render to the same document in the OTHER
+			// encodings (an encoder that writes a value its own decoder reads back wrong is stable under re-encoding)
+			for _, o := range encodings {
+				if o.name == e.name {
+					continue
+				}
+				d1, p1 := encodeUnder(o, c.Ver, ptr.Interface())
+				d2, p2 := encodeUnder(o, c.Ver, back.Interface())
+				if p1 == "" && p2 == "" && !bytes.Equal(d1, d2) {
+					probs = append(probs, fmt.Sprintf("%s:value-changed-by-roundtrip:seen-in-%s:first-difference-at-%d", e.name, o.name, firstDiff(d1, d2)))
+					break
+				}
+			}
 			// C05 second clause: decoding at version 1.0 still returns later-version elements present on the wire
 			if e.name == "ttlv" && c.Ver == 4 {
 				low := reflect.New(sp.typ)
@@ -771,6 +805,8 @@ func TestMessages(t *testing.T) {
 			probs = append(probs, fmt.Sprintf("ttlv:decode-error:%v", err))
 		} else if b2 := ttlv.MarshalTTLV(back); !bytes.Equal(b1, b2) {
 			probs = append(probs, fmt.Sprintf("ttlv:reencoding-differs:first-difference-at-%d", firstDiff(b1, b2)))
+		} else if x1, x2 := ttlv.MarshalXML(msg), ttlv.MarshalXML(back); !bytes.Equal(x1, x2) {
+			probs = append(probs, fmt.Sprintf("ttlv:value-changed-by-roundtrip:seen-in-xml:first-difference-at-%d", firstDiff(x1, x2)))
 		}
 		// C04 hop: XML and JSON carry the same information
 		for _, e := range []struct {
@@ -830,6 +866,108 @@ func TestMessages(t *testing.T) {
 							}
 							msg := &kmip.ResponseMessage{Header: hdr, BatchItem: items}
 							check(id, msg, func() any { return new(kmip.ResponseMessage) })
+						}
+					}()
+				}
+			}
+		}
+	}
+	// C05: the elements of an item depend on the header version only, not on what precedes it in the batch: every payload is
+	// encoded as the only item and after a Discover Versions item listing other versions; the payload subtrees must be identical
+	{
+		payloadOf := func(b []byte, which int) ([]byte, error) {
+			root, err := refwire.Parse(b, true)
+			if err != nil {
+				return nil, err
+			}
+			k := 0
+			for _, it := range root.Kids {
+				if it.Tag != int(kmip.TagBatchItem) {
+					continue
+				}
+				if k == which {
+					for _, m := range it.Kids {
+						if m.Tag == int(kmip.TagRequestPayload) || m.Tag == int(kmip.TagResponsePayload) {
+							return refwire.Encode(m), nil
+						}
+					}
+					return nil, fmt.Errorf("no payload in item %d", which)
+				}
+				k++
+			}
+			return nil, fmt.Errorf("no item %d", which)
+		}
+		for _, e := range opTable {
+			if e.Op == kmip.OperationDiscoverVersions {
+				continue
+			}
+			for v := 0; v <= 4; v++ {
+				for dir, pl := range []kmip.OperationPayload{e.Req, e.Resp} {
+					id := fmt.Sprintf("after-discover/%s/%d/1.%d", ttlv.EnumStr(e.Op), dir, v)
+					n++
+					func() {
+						defer func() {
+							if r := recover(); r != nil {
+								out.Emit(map[string]any{"msg": id, "problems": []string{"panic:" + vh.PanicSig(r)}})
+							}
+						}()
+						p := buildPayload(pl, full, v)
+						fixupPayload(p)
+						others := []kmip.ProtocolVersion{ver((v + 1) % 5), ver((v + 3) % 5), ver(4 - v)}
+						if 4-v == v {
+							others[2] = ver((v + 2) % 5)
+						}
+						var alone, after any
+						if dir == 0 {
+							hdr := kmip.RequestHeader{ProtocolVersion: ver(v), BatchCount: 1}
+							alone = &kmip.RequestMessage{Header: hdr, BatchItem: []kmip.RequestBatchItem{{Operation: e.Op, RequestPayload: p}}}
+							hdr.BatchCount = 2
+							after = &kmip.RequestMessage{Header: hdr, BatchItem: []kmip.RequestBatchItem{
+								{Operation: kmip.OperationDiscoverVersions, RequestPayload: &payloads.DiscoverVersionsRequestPayload{ProtocolVersion: others}},
+								{Operation: e.Op, RequestPayload: p}}}
+						} else {
+							hdr := kmip.ResponseHeader{ProtocolVersion: ver(v), TimeStamp: sampleTime, BatchCount: 1}
+							alone = &kmip.ResponseMessage{Header: hdr, BatchItem: []kmip.ResponseBatchItem{{Operation: e.Op, ResponsePayload: p}}}
+							hdr.BatchCount = 2
+							after = &kmip.ResponseMessage{Header: hdr, BatchItem: []kmip.ResponseBatchItem{
+								{Operation: kmip.OperationDiscoverVersions, ResponsePayload: &payloads.DiscoverVersionsResponsePayload{ProtocolVersion: others}},
+								{Operation: e.Op, ResponsePayload: p}}}
+						}
+						var probs []string
+						for _, enc := range []struct {
+							name string
+							m    func(any) []byte
+						}{{"ttlv", ttlv.MarshalTTLV}} {
+							pa, err1 := payloadOf(enc.m(alone), 0)
+							pb, err2 := payloadOf(enc.m(after), 1)
+							if err1 != nil || err2 != nil {
+								probs = append(probs, fmt.Sprintf("%s:not-well-formed:%v %v", enc.name, err1, err2))
+							} else if !bytes.Equal(pa, pb) {
+								probs = append(probs, fmt.Sprintf("gating:payload-depends-on-preceding-item:first-difference-at-%d (alone %d bytes, after a Discover Versions item %d bytes)", firstDiff(pa, pb), len(pa), len(pb)))
+							}
+						}
+						// the same through XML and JSON: decode the batch document and compare the binary of the second payload
+						for _, h := range []struct {
+							name string
+							m    func(any) []byte
+							u    func([]byte, any) error
+						}{{"xml", ttlv.MarshalXML, ttlv.UnmarshalXML}, {"json", ttlv.MarshalJSON, ttlv.UnmarshalJSON}} {
+							var back any = new(kmip.RequestMessage)
+							if dir == 1 {
+								back = new(kmip.ResponseMessage)
+							}
+							if err := h.u(h.m(after), back); err != nil {
+								probs = append(probs, fmt.Sprintf("gating:%s-batch-not-decoded:%v", h.name, err))
+								continue
+							}
+							pa, _ := payloadOf(ttlv.MarshalTTLV(alone), 0)
+							pb, err := payloadOf(ttlv.MarshalTTLV(back), 1)
+							if err != nil || !bytes.Equal(pa, pb) {
+								probs = append(probs, fmt.Sprintf("gating:payload-depends-on-preceding-item-%s:%v", h.name, err))
+							}
+						}
+						if len(probs) > 0 {
+							out.Emit(map[string]any{"msg": id, "problems": probs})
 						}
 					}()
 				}
